@@ -128,7 +128,8 @@ def c10_executions(tier, seed):
         traces.append(run({'rx_routes': rx, 'tx_routes': tx}, steps))
         metas.append({'table': ti, 'sequence': list(seq) if len(seq) <= 8 else list(seq[:8]) + ['...%d' % len(seq)]})
     # long histories: a repeat arrives after many other identities have been seen
-    for n in ((70,) if tier == 'quick' else (20, 70, 300)):
+    # (the memory of seen identities must not be a bounded window: thousands of identities in between)
+    for n in ((70, 1500) if tier == 'quick' else (20, 70, 300, 1500, 6000)):
         first = mk(src='dtn://src/app', ts=(2000, 0), dest=PROBE, pay=b'first')
         steps = [('recv', first, {'note': 'first'}), ('idle',)]
         for j in range(n):
@@ -183,6 +184,31 @@ def c11_executions(tier, seed):
         traces.append(run({'rx_routes': rx, 'tx_routes': tx}, steps))
         metas.append({'table': ti, 'prev': nprev, 'hop': nhop, 'age': nage, 'unknown': nunk, 'numbering': numbering,
                       'crc': crc, 'nonzero_time': tsnz})
+    # payloads the node can parse (administrative records in transit) must leave as they came: every shape of
+    # status item (asserted with time zero / non-zero / no time, not asserted), reason codes, subject identities
+    # with ipn and dtn EIDs, fragment subjects, unknown record types, and encodings that are valid but not the
+    # ones the node itself would produce (non-shortest integer heads, indefinite-length arrays)
+    items = [[True, 0], [True, 1], [True, 775000000000], [True], [False], [False, 0]]
+    recs = []
+    for (k, quad) in enumerate(itertools.product(items, repeat=4) if tier == 'thorough'
+                               else [tuple(rnd.choice(items) for _ in range(4)) for _ in range(40)] + [([True, 0],) * 4]):
+        subj_src = [[1, '//origin/app'], [2, [5, 1]], [1, 0]][k % 3]
+        rec = [list(quad), k % 10, subj_src, [k % 2 * 1000, 7]]
+        if k % 4 == 3:
+            rec += [10, 400]
+        recs.append((bp7.enc([1, rec]), 'status %s' % (list(quad),)))
+    recs.append((bytes.fromhex('82' '1801' '84' '9f' '81f5' '81f4' '81f4' '81f4' 'ff' '1800' '8201' '6c2f2f6f726967696e2f617070'
+                               '82' '1900' '00' '07'), 'status, non-shortest heads and an indefinite-length array'))
+    recs.append((bp7.enc([9, [1, 2, 3]]), 'unknown record type'))
+    recs.append((bp7.enc([1, [[[True, 0], [False], [False], [False]], 0, [1, '//origin/app'], [0, 7]]]), 'status times all zero'))
+    for (k, (pay, what)) in enumerate(recs):
+        for frag in ((None,) if k % 5 else (None, (0, len(pay) + 9))):
+            octets = mk(src='dtn://reporter/', dest='dtn://other/svc', ts=((0 if k % 3 == 0 else 780000000000 + k), k),
+                        flags=F['ADMIN'], pay=pay, crc=1 + k % 2, frag=frag,
+                        ext=[hop_count(2, 30, 1, crc=k % 3)] if k % 2 else [])
+            rx, tx = ROUTE_TABLES[k % 2]
+            traces.append(run({'rx_routes': rx, 'tx_routes': tx}, [('recv', octets, {'note': 'admin'}), ('idle',)]))
+            metas.append({'table': k % 2, 'administrative_record_in_transit': what, 'fragment': bool(frag)})
     return traces, metas
 
 
@@ -313,7 +339,9 @@ def c19_executions(tier, seed):
             pay = bp7.enc([1, [[[True], [False], [False], [False]], 0, [1, '//x/y'], [5, 0]]])
         # every fourth subject comes from a source without a clock: creation time 0 and a Bundle Age block
         clockless = (k % 4 == 0)
-        ext = [hop_count(2, 9, 1)] if k % 2 else []
+        # (hop counts below, at and beyond their limit: whatever the node does with an exhausted bundle, its report
+        # says what happened)
+        ext = [hop_count(2, *[(9, 1), (1, 0), (1, 1), (30, 30), (5, 254), (255, 254)][(k // 2) % 6])] if k % 2 else []
         if clockless:
             ext = ext + [age(5, 1200 + k)]
         octets = mk(dest=dest, rpt=rpt, ts=(0, k) if clockless else (777000 + k, k % 3), flags=fl2, pay=pay,
@@ -344,7 +372,7 @@ def c19_executions(tier, seed):
             dest = rnd.choice(['dtn://other/svc', 'dtn://far/x', PROBE, 'dtn://bad/x'])
             rpt = rnd.choice(['dtn://rpt/r', 'dtn://rpu/r', 'dtn:none'])
             octets = mk(dest=dest, rpt=rpt, ts=(888000 + k, n), flags=fl, pay=payload(6, k + n),
-                        crc=rnd.choice([0, 1, 2]), ext=[hop_count(2, 9, 1)] if n % 2 else [])
+                        crc=rnd.choice([0, 1, 2]), ext=[hop_count(2, 9, rnd.choice([1, 8, 9, 20]))] if n % 2 else [])
             via = rnd.choice([None, 'udpcl', 'btpu'])
             steps.append(('recv', octets, {'note': 'adaptor', 'via': None if via in down else via}))
             steps.append(('idle',))
